@@ -178,6 +178,32 @@ Proof.
   destruct (set_outs_plain _ _ _ _ x So Io) as [z Hz]. rewrite Hz in Hv. inversion Hv. subst v. cbn in Hd. discriminate.
 Qed.
 
+Definition is_ptr_op (op : string) : bool :=
+  String.eqb op "phi" || String.eqb op "assign" || String.eqb op "alloca" || String.eqb op "add" || String.eqb op "sub".
+(* every instruction that is not pointer-producing defines plain words only *)
+Lemma exec_dinv_plain O C D i s s1 : dinv C D s -> is_ptr_op (i_op i) = false -> exec O i s = Next s1 -> dinv C D s1.
+Proof.
+  intros HD Ptr He x v Hv Hd.
+  destruct (in_dec N.eq_dec x (i_outs i)) as [Io|No].
+  2:{ rewrite (exec_frame O i s s1 x He No) in Hv. eapply HD; eauto. }
+  destruct i as [op args outs wm wrd id ann]. unfold exec in He. unfold is_ptr_op in Ptr. cbn [i_op i_args i_outs i_wm i_wrd i_id i_ann] in *.
+  apply orb_false_iff in Ptr. destruct Ptr as [Ptr P5]. apply orb_false_iff in Ptr. destruct Ptr as [Ptr P4].
+  apply orb_false_iff in Ptr. destruct Ptr as [Ptr P3]. apply orb_false_iff in Ptr. destruct Ptr as [P1 P2].
+  rewrite P1 in He. destruct (ovals s args) as [a|]; try discriminate.
+  case_op op "nop". { inversion He. subst s1. apply (HD x v Hv Hd). }
+  rewrite P2, P3, P4, P5 in He.
+  case_op op "mload".
+  { destruct a as [|p [|? ?]]; try discriminate. destruct outs as [|x0 [|? ?]]; try discriminate. inversion He. subst s1.
+    destruct Io as [<-|[]]. cbn [vars with_vars] in Hv. rewrite upd_same in Hv.
+    assert (Ev : v = (None, mload (smem s) p)) by congruence. subst v. cbn [fst inD] in Hd. discriminate. }
+  case_op op "mstore". { destruct a as [|? [|? [|? ?]]]; try discriminate. destruct outs; try discriminate. destruct Io. }
+  case_op op "mcopy". { destruct a as [|[[?|] ?] [|? [|? [|? ?]]]]; try discriminate. destruct outs; try discriminate. destruct Io. }
+  destruct (is_nonmem_copy op). { destruct a as [|[[?|] ?] [|? [|? [|? ?]]]]; try discriminate. destruct outs; try discriminate. destruct Io. }
+  destruct (o_step O _ a s) as [[[[o m] r] w]|]; try discriminate.
+  destruct (set_outs (vars s) outs o) as [vs'|] eqn:So; try discriminate. inversion He. subst s1. cbn in Hv.
+  destruct (set_outs_plain _ _ _ _ x So Io) as [z Hz]. rewrite Hz in Hv. inversion Hv. subst v. cbn in Hd. discriminate.
+Qed.
+
 (* ---- lockstep *)
 Definition brelD (C : certs) (D : list Z) (r r' : bres) : Prop :=
   match r, r' with
